@@ -10,6 +10,8 @@ O1  bounded co-simulation: a real master and 1..3 real joining nodes (and, in th
     a message sent to a node ID arrives at that node; check_connection() is True for connected
     nodes; release_address() returns the node to 0o4444, frees its lease, check_connection() turns
     False; a re-join works.
+O3  join under packet loss (every packet of a master + joiner run has a symbolic fate): no exception, termination,
+    valid-or-None, both radios listening afterwards.
 O2  node-side steps with a symbolic peer: lookup / release / check_connection against an arbitrary
     (or absent) answer: -1 when nothing arrives or the write fails, -2 when unconnected, the
     decoded value otherwise; an address response is accepted only if `reserved` carries the node's
@@ -164,6 +166,40 @@ def o1_cosim(ctx, joiners, relay):
     ctx.reached()
 
 
+def o3_lossy_join(ctx, timeout_ms):
+    """with packet loss only the no-exception, termination and valid-or-None clauses are claimed: master + one joiner on
+    a medium where EVERY packet has a symbolic fate (all attempts of a packet share it)"""
+    from circuitpython_nrf24l01.rf24_mesh import RF24Mesh, RF24MeshNoMaster
+    clock = fresh_env(ctx, tick_ns=5_000_000)
+    clock.max_looks = 60000
+    med = Medium()
+    fate = {}
+
+    def loss(src, dst, pkt, attempt):
+        if pkt.uid not in fate:
+            fate[pkt.uid] = ctx.bool("lost_%s" % pkt.uid.replace("#", "_"))
+        return "pkt" if bool(fate[pkt.uid]) else "ok"
+    med.loss = loss
+    rm = med.add(SimRadio(clock, "master"))
+    master = RF24Mesh(FakeSpiDev(rm), 0, Pin(rm), 0)
+    master.dhcp_dict = SymDict() if ctx.symbolic else {}
+    med.attach_node(rm, master.update)
+    k = ctx.int("id", 1, 255)
+    rj = med.add(SimRadio(clock, "joiner"))
+    nj = RF24MeshNoMaster(FakeSpiDev(rj), 0, Pin(rj), k)
+    addr = call(med, rj, nj.renew_address, timeout_ms / 1000)  # must not raise, must terminate
+    ctx.check(not med.errors, "no node raised under packet loss: %r" % (med.errors[:1],))
+    if addr is None:
+        ctx.check(nj.node_address == 0o4444, "None: the node stays unassigned")
+    else:
+        ctx.check(s_and(NS.valid(addr), addr != 0, addr != 0o4444), "a returned address is valid")
+        ctx.check(nj.node_address == addr, "and it is the node's address")
+    listening_ok(ctx, rj, nj.node_address, "after renew_address() under loss")
+    listening_ok(ctx, rm, 0, "the master after serving under loss")
+    ctx.observe("n_packets", len(fate))
+    ctx.reached()
+
+
 def o2_node_steps(ctx, op, answer):
     """a single real mesh node at a symbolic address; the peer is symbolic"""
     clock = fresh_env(ctx, tick_ns=5_000_000)
@@ -221,6 +257,8 @@ def jobs(tier):
         out.append(Job("O1-co-simulation", o1_cosim, dict(joiners=j, relay=False), cost=100 * j))
     for j in ((1, 2, 3) if tier == "quick" else (1, 2, 3, 4)):
         out.append(Job("O1-co-simulation-through-relay", o1_cosim, dict(joiners=j, relay=True), cost=200 * j))
+    for tmo in ((300, 700) if tier == "quick" else (300, 700, 1500)):
+        out.append(Job("O3-join-under-packet-loss", o3_lossy_join, dict(timeout_ms=tmo), cost=300, shards=8, max_paths=60000))
     for op in ("lookup_address", "lookup_node_id"):
         for answer in ("none", "short", "ok", "long", "foreign"):
             out.append(Job("O2-lookup-step", o2_node_steps, dict(op=op, answer=answer), cost=20, shards=2))
@@ -236,7 +274,7 @@ META = {
                         "answer injected at a symbolic clock look",
                "thorough": "1..6, 8 and 12 direct joiners, up to 4 joiners through the relay"},
     "outside": ["start offsets, join orders other than sequential, MCU timing jitter, true concurrency (the cooperative schedule is "
-                "one schedule)", "packet loss in the multi-node runs (per-node steps with symbolic outcomes: O2, C07, C15)",
+                "one schedule)", "packet loss with more than one joiner (O3 covers master + 1 joiner with a symbolic fate per packet; per-node steps with symbolic outcomes: O2, C07, C15)",
                 "more than 12 joiners"],
     "assumptions": ["cooperative schedule of env/medium.py; loss-free medium", "the relay is placed at 0o1 with the private _begin (its "
                     "own join is the 'direct' scenario)"],
